@@ -45,6 +45,8 @@ pub fn run(
         si,
     ) {
         Ok(rev_result) => rev_result,
+        // a limit of the termination model stops the query: it must not shorten the answer
+        Err(e @ SearchError::TerminationModelFailure { .. }) => return Err(e),
         Err(e) => {
             // the query is answered by the forward search; a failed reverse search only means
             // that no alternatives can be generated
